@@ -263,6 +263,8 @@ def run(ctx, model):
                 vio = ("recorded-despite-failed-transmission", f"after a transmission that failed at call {j} of {len(ref)} the database still records the image as uploaded to the terminal (needs_uploading={obs['needs_after']})")
             elif [c for c in obs["retry_calls"] if c[0] == "w"] != [c for c in ref if c[0] == "w"]:
                 vio = ("retry-not-in-full", "the next request did not transmit the image again in full")
+        if vio is None and wanted and ref and (ref[-1][0] != "f" or any(a[0] == "w" and b[0] != "f" for a, b in zip(ref, ref[1:] + [("end",)]))):
+            vio = ("recorded-before-last-flush", "a complete transmission does not flush after its last write (or after some write): the upload is recorded although the last bytes may still sit in a buffer")
         if vio is None and obs["probe"]:
             # during the calls of a transmission the (new) record must not exist yet
             before_times = {row[4] for row in obs["table_before"] if row[0] == obs["id"] and row[1] == "term-X"}
